@@ -1,6 +1,7 @@
 import Norad.Lemmas.C10
 import Norad.Lemmas.Plist
 import Norad.Generated.KernConsts
+import Norad.Props.KernSource
 /-!
 # C10 — loading and saving are deterministic (the kerning / feature upconversion part)
 
@@ -158,6 +159,28 @@ theorem source_robofab_keys_match_model :
       [("ps_hinting_data", robofabHintKey), ("feature_classes", robofabClassesKey),
        ("feature_order", robofabOrderKey), ("features", robofabFeaturesKey)] ∧
     (∀ e ∈ Generated.KernConsts.libDataKeys, e.2 ∈ Generated.KernConsts.removedKeys) := by decide
+
+/-- **source_gen_upconvert_order_independent**: `upconvert_order_independent` stated of the pass as regenerated from
+    `src/upconversion.rs` (`Kern.Gen.upconvertKerning`, `tools/extract_upconv.py`).  In the regenerated code the two sets are
+    built by `BTreeSet::insert` in loop order (`Gen.findKnown`, `Gen.collectLoop`; `source_sets_eq_model`: their iteration
+    order is the sorted duplicate-free list of the inserted names), and whatever order — and however often — the same names
+    are inserted, visiting the sets gives this one result. -/
+theorem source_gen_upconvert_order_independent (sfx : Nat → Str) (g : Groups) (k : Kerning) (S : List Str)
+    (ins1 ins2 : List Str) (h1 : ∀ a, a ∈ ins1 ↔ a ∈ firstSet g k S)
+    (h2 : ∀ a, a ∈ ins2 ↔ a ∈ secondSet g k S) :
+    upconvertWith sfx (sortDedup ins1) (sortDedup ins2) g k = Gen.upconvertKerning sfx g k S := by
+  rw [source_upconvert_eq_model]; exact upconvert_order_independent sfx g k S ins1 ins2 h1 h2
+
+-- non-vacuity: the witness of the repaired defect, names inserted in the opposite order and twice, against the regenerated pass
+example : upconvertWith decimal (sortDedup (firstSet collGroups collKerning []).reverse) (sortDedup (secondSet collGroups collKerning []))
+      collGroups collKerning = Gen.upconvertKerning decimal collGroups collKerning [] :=
+  source_gen_upconvert_order_independent decimal collGroups collKerning [] _ _ (fun _ => List.mem_reverse) (fun _ => Iff.rfl)
+example : upconvertWith decimal (sortDedup (firstSet collGroups collKerning [] ++ firstSet collGroups collKerning []))
+      (sortDedup (secondSet collGroups collKerning [])) collGroups collKerning = Gen.upconvertKerning decimal collGroups collKerning [] :=
+  source_gen_upconvert_order_independent decimal collGroups collKerning [] _ _ (fun _ => by simp) (fun _ => Iff.rfl)
+example : ∃ o, Gen.upconvertKerning decimal collGroups collKerning [] = .ok o ∧
+    lookup "public.kern1.A".toList o.groups = some ["a".toList] ∧
+    lookup "public.kern1.A1".toList o.groups = some ["b".toList] := ⟨_, rfl, rfl, rfl⟩
 
 /-! ## groups.plist, kerning.plist, contents.plist: sorted by construction -/
 
